@@ -187,6 +187,30 @@ def run_case(case):
     # back-propagating the cotangent T(y) equals applying the inverse to it
     gx, = torch.autograd.grad(fx, tx, fy)
     rec = core.libcall(inv, (oy[0].detach(), [h.detach() for h in oy[1]]))
+    # and the other way round: back-propagating a cotangent c through the inverse gives the forward transform of c,
+    # band by band, whichever bands require grad (here: the highpasses only, then everything)
+    for with_low in (False, True):
+        pl = oy[0].detach().clone().requires_grad_(with_low)
+        ph = [h.detach().clone().requires_grad_(True) for h in oy[1]]
+        recx = core.libcall(inv, (pl, ph))
+        cshape = recx.shape
+        cot = torch.tensor(core.make(case['rx'], list(cshape)))
+        ins = ([pl] if with_low else []) + ph
+        ok, gs = lib(torch.autograd.grad, recx, ins, cot, allow_unused=True)
+        if not ok:
+            r.fail('inverse_backward_raise', 'backward through the inverse raised: %s' % gs)
+            break
+        fc = core.libcall(fwd, cot[..., :size[0]] if dim == 1 else cot[..., :size[0], :size[1]])
+        wants = ([fc[0]] if with_low else []) + list(fc[1])
+        for gi, wi in zip(gs, wants):
+            if gi is None:
+                r.fail('inverse_backward_none', 'a coefficient band requiring grad received None from the inverse '
+                       '(lowpass requires grad: %s)' % with_low)
+                break
+            if gi.shape != wi.shape or float((gi - wi.detach()).abs().max()) > 1e-9 * max(core.maxabs(cot.numpy()), 1e-300):
+                r.fail('inverse_backward_is_forward:dim%d' % dim, 'backward through the inverse is not the forward '
+                       'transform of the cotangent (lowpass requires grad: %s)' % with_low)
+                break
     okc, err = core.close(gx.numpy(), rec.numpy(), 1e-9 * max(core.maxabs(y), 1e-300))
     if not okc:
         r.fail('backprop_is_inverse:dim%d' % dim, 'backward(g) != inverse(g): ' +
